@@ -436,19 +436,21 @@ def check_case(case, rec):
                 dev = np.maximum(np.maximum(np.max(np.abs(P[idx] - Pall[k][idx]), axis=1) / scale_len,
                                             np.max(np.abs(D[idx] - Dall[k][idx]), axis=1)),
                                  np.abs(opd[idx] - OPD[k][idx]) / scale_len)
-                if hostile and sh.is_conic() and sh.c != 0 and abs(1 + sh.k) < 1e-6 and not any(
-                        s.get(q) for q in ('rx', 'ry', 'rz')) and e > 1e-11:
+                if hostile and sh.is_conic() and sh.c != 0 and abs(1 + sh.k) < 1e-6 and e > 1e-11:
                     # is the library's point what the textbook quadratic (known mechanism) gives from ITS OWN previous
                     # record, for exactly the rays that disagree with the reference?  (the replica is bit-exact, so the
                     # match is demanded at rounding level; rays explained here stay attributed to the mechanism further
                     # down the lens, where the lever arm may lift a sub-tolerance error above the tolerance)
                     mm = idx[dev > 1e-11]
                     if len(mm):
-                        t_ab = textbook_conic_distance(Pall[k - 1][mm] - fr.o, Dall[k - 1][mm], S.fnum(s['radius']), sh.k)
-                        pred = Pall[k - 1][mm] + t_ab[:, None] * Dall[k - 1][mm]
-                        a_small = np.abs((1 + sh.k) * Dall[k - 1][mm][:, 2] ** 2 + Dall[k - 1][mm][:, 0] ** 2
-                                         + Dall[k - 1][mm][:, 1] ** 2) < 1e-6
-                        hit = a_small & (np.linalg.norm(pred - Pall[k][mm], axis=1) <= 1e-12 * (1 + np.abs(t_ab)))
+                        # (the library's own localisation, tilts included, then the textbook quadratic in its expression order)
+                        Pl_, Dl_ = asbuilt_localize(Pall[k - 1][mm], Dall[k - 1][mm], s, float(fr.o[2]))
+                        t_ab = textbook_conic_distance(Pl_, Dl_, S.fnum(s['radius']), sh.k)
+                        pred = Pl_ + t_ab[:, None] * Dl_
+                        a_small = np.abs((1 + sh.k) * Dl_[:, 2] ** 2 + Dl_[:, 0] ** 2 + Dl_[:, 1] ** 2) < 1e-6
+                        tilted_ = any(s.get(q) for q in ('rx', 'ry', 'rz'))
+                        hit = a_small & (np.linalg.norm(pred - fr.to_local_p(Pall[k][mm]), axis=1)
+                                         <= (1e-9 if tilted_ else 1e-12) * (1 + np.abs(t_ab)))
                         cancel_rays[mm[hit]] = True
                         if np.all(hit[dev[dev > 1e-11] > 1e-8]) and np.any(dev > 1e-8):
                             cancel_explained = True
